@@ -2,8 +2,8 @@ SPEC = {
     "id": "C26",
     "props_module": "NDB.Props.C26",
     "corr_modules": ["NDB.Corr.C26", "NDB.Corr.C26bs"],
-    "theorems": ["C26_refuted_delete", "C26_refuted_lookup", "C26_refuted_insert",
-                 "C26_delete_exact", "C26_cursor_chain_partial", "C26_insert_fits_exact_partial", "C26_invariant_chain_partial", "C26_single_leaf_partial", "C26_single_leaf_dups_partial", "C26_leaf_insert_partial", "C26_leaf_delete_partial", "C26_leaf_split_partial",
+    "theorems": ["C26_refuted_delete", "C26_refuted_lookup",
+                 "C26_height2_partial", "C26_delete_exact", "C26_cursor_chain_partial", "C26_insert_fits_exact_partial", "C26_invariant_chain_partial", "C26_single_leaf_partial", "C26_single_leaf_dups_partial", "C26_leaf_insert_partial", "C26_leaf_delete_partial", "C26_leaf_split_partial",
                  "C26_descent_partial", "C26_binary_search_partial", "C26_dups_delete_general"],
     "allowed_axioms": [],
     "harness_pkg": "hx_btree",
@@ -28,19 +28,22 @@ SPEC = {
     ],
     "assumptions": [
         "one B-tree on a fresh pager file, single thread, no I/O errors; at most 65536 pages",
+        "key domain of insert: the leaf cell of a key takes at most half a page (keys up to ~4070 bytes); larger keys can make a leaf "
+        "unsplittable in two and are refused with 'index page: no space' (modelled; executable class has_failed_op; corpus case 4)",
         "lookup = seek + key equality as read_node_property_from_store does; scan = the callers' loop `while is_valid { read; if !advance { break } }`",
-        "the full refinement statement C26_full_statement (all histories outside the two known classes, any tree depth) is NOT proved; "
-        "proved of it: every history that stays in one leaf (C26_single_leaf_partial, C26_single_leaf_dups_partial), the leaf-level and "
-        "descent components of the multi-level algorithm, and delete's exactness for every heap; beyond one leaf the refinement is sampled by "
-        "the correspondence (on every generated history outside the classes: model results = spec results, final scan = spec list, the executable "
-        "invariant BTree/Inv.v wf_state holds — leaves strictly sorted and inside their separator bounds, sibling chain = in-order traversal, "
-        "byte accounting consistent, no page visited twice — and in-order contents = spec list)",
+        "C26_full_statement (all histories outside the known classes, any tree depth) is proved for histories in which the tree stays within "
+        "height 2 (C26_height2_partial: the root is split at most once; any number of leaf splits). For deeper trees (a second root split, "
+        "i.e. roughly > 8 leaves of 900-byte keys or > ~60000 short entries) it is sampled by the correspondence: on every generated history "
+        "outside the classes model results = spec results, final scan = spec list, and the executable invariant BTree/Inv.v wf_state holds "
+        "(leaves strictly sorted inside their separator bounds, sibling chain = in-order traversal, byte accounting, no page twice) with "
+        "in-order contents = spec list. Components proved for every heap and any depth: delete exactness, non-splitting insert exactness, "
+        "cursor over a sibling chain, invariant => chain",
     ],
     "manifest": {
         "category": "proof",
-        "text": "Faithful page-heap model of btree.rs (code's byte accounting, its two hand-written binary searches, core::slice::binary_search_by, splits, sibling-walking cursor); model = implementation is checked inside Coq on generated histories: result of every op, final root and every page image, after real reopens. The property is REFUTED on the pinned code by machine-checked witnesses in the model, reproduced by the real code: K-C26-dups (with a key stored twice: delete misses a stored pair — proved for every key with three entries, C26_dups_delete_general; lookup returns an old payload and a seek sees 5 of 9 equal keys after a leaf split) and K-C26-splitfit (17 inserts of distinct keys of 2 and 900 bytes panic: a median split half exceeds a page). A third defect (a scan stopped at a leaf emptied by deletes, no duplicates needed) was repaired in /repo ff9d0a3; its witness is a regression. Proved for all inputs: C26_delete_exact (every heap: delete=true removes exactly one cell equal to the pair and changes nothing else; otherwise nothing changes); C26_single_leaf_partial (every history without a twice-stored key that never allocates a page: every insert/delete/lookup/seek/reopen result and the final scan equal the sorted multimap); C26_single_leaf_dups_partial (same with equal keys but no delete); C26_cursor_chain_partial (every heap, any depth: seek + scan over a well-formed sibling chain return the rest of the reached leaf and all following leaves; lookup is its head); C26_insert_fits_exact_partial (every heap, any depth: a non-splitting insert writes exactly the reached leaf, pair at the lower-bound slot); leaf insert position, delete search, median split + separator bounds, descent rule, binary_search_by on monotone lists. NOT proved: C26_full_statement for trees deeper than one leaf (separator/sibling-chain invariants across splits) — sampled by the correspondence only.",
+        "text": "Faithful page-heap model of btree.rs (code's byte accounting, its two hand-written binary searches, core::slice::binary_search_by, byte-aware split point, sibling-walking cursor); model = implementation is checked inside Coq on generated histories: result of every op, final root and every page image, after real reopens. REFUTED on the pinned code for histories with a key stored twice (known finding K-C26-dups; machine-checked witnesses reproduced by the real code: delete misses a stored pair — proved for every key with three entries, C26_dups_delete_general; lookup returns an old payload and a seek sees 5 of 9 equal keys after a leaf split). Two further defects were repaired in /repo and are regressions now: a scan stopped at a leaf emptied by deletes (ff9d0a3); the median split by cell count overflowed a page and panicked on 17 inserts of distinct keys of 2 and 900 bytes (0fc5a58: split point now chosen by bytes). PROVED for all histories outside the classes in which the tree stays within height 2 (C26_height2_partial: one leaf, then an internal root over any number of leaves; induction over the history with a heap representation invariant): every insert/delete/lookup/seek/reopen result and the final scan equal the sorted multimap. Also for every heap and any depth: C26_delete_exact, C26_insert_fits_exact_partial, C26_cursor_chain_partial, C26_invariant_chain_partial; single-leaf refinements; leaf insert position, delete search, split + separator bounds, descent rule, binary_search_by on monotone lists. NOT proved: C26_full_statement for trees of height >= 3 — sampled by the correspondence (results, page images, executable invariant wf_state).",
         "design_ref": "DESIGN.md §5 C26",
-        "level_note": "Trusted: Coq kernel; hand-written model tied to the code by sampled correspondence (strong: whole page images after every history); the conditional refinement over multi-level trees is not proved, only the single-leaf case and the leaf-level/descent components.",
-        "technique": "Rocq: executable page-heap model, vm_compute refutation witnesses, invariant proofs by induction over histories (one-leaf domain) and over the binary-search loops; vm_compute model/implementation correspondence on generated histories",
+        "level_note": "Trusted: Coq kernel; hand-written model tied to the code by sampled correspondence (whole page images after every history). The conditional refinement theorem is proved up to height 2; height >= 3 (internal-node splits) is sampled only.",
+        "technique": "Rocq: executable page-heap model, vm_compute refutation witnesses, refinement by induction over histories with a heap representation invariant (zipper over the root's children, frame lemmas, sibling chain), proofs of the binary-search loops; vm_compute model/implementation correspondence on generated histories",
     },
 }
